@@ -181,7 +181,7 @@ class C06(Prop):
             near, a, sa, cands = sample(rng)
             sa = [s for s in sa if _valid_clause(s) and "," not in s]
             sd = rng.randrange(1 << 30)
-            how = rng.choice(["str", "str", "list"])
+            how = rng.choice(["str", "str", "list", "and"])
             base = {"clauses": sa, "how": how, "cands": cands, "combos": ALL9, "seed": sd}
             yield ("gate", base); k += 1
             yield ("filter_contains", base); k += 1
@@ -225,6 +225,12 @@ class C06(Prop):
                 return SpecifierSet([Specifier(c) for c in cl], prereleases=ov)
             if any("," in c for c in cl):
                 raise G.Domain("comma inside a clause")
+            if how == "and":
+                # the same set, obtained by intersecting one-clause sets (alternately `set & str` and `set & set`)
+                acc = SpecifierSet(cl[0] if cl else "", prereleases=ov)
+                for i, c in enumerate(cl[1:]):
+                    acc = acc & (c if i % 2 == 0 else SpecifierSet(c))
+                return acc if cl[1:] else acc & SpecifierSet("")
             return SpecifierSet(",".join(cl), prereleases=ov)
 
         members = [Specifier(c) for c in cl]
